@@ -572,9 +572,10 @@ fn stress_canonical(args: &Args, vecs: &[Value], nv: usize, which: &str) {
                             let g = bdd_build(&b, tg, 0, &order, nv, &mut memo);
                             [f, g, b.and(f, g), b.or(f, g), b.negate(f), b.xor(f, g)]
                         });
-                        let want = [tf, tg, tt_of(&v["conj"]), tt_of(&v["disj"]), !tf & full(nv), (tf ^ tg) & full(nv)];
+                        // canonicity only (C02): the key is the function a result ACTUALLY denotes (a wrong function is C01's business)
+                        let want: Vec<TT> = match &r { Ok(ps) => ps.iter().map(|p| bdd_tt(*p, nv)).collect(), Err(_) => vec![] };
                         let ok = match &r {
-                            Ok(ps) => ps.iter().zip(want.iter()).all(|(p, w)| bdd_tt(*p, nv) == *w && *canon.entry(*w).or_insert(*p) == *p),
+                            Ok(ps) => ps.iter().zip(want.iter()).all(|(p, w)| *canon.entry(*w).or_insert(*p) == *p),
                             Err(_) => false,
                         };
                         if !ok {
@@ -612,9 +613,9 @@ fn stress_canonical(args: &Args, vecs: &[Value], nv: usize, which: &str) {
                     let g = sdd_build(b, tg, 0, nv, &mut memo);
                     [f, g, b.and(f, g), b.or(f, g), b.negate(f)]
                 });
-                let want = [tf, tg, tt_of(&v["conj"]), tt_of(&v["disj"]), !tf & full(nv)];
+                let want: Vec<TT> = match &r { Ok(ps) => ps.iter().map(|p| sdd_tt(*p, nv)).collect(), Err(_) => vec![] };
                 let ok = match &r {
-                    Ok(ps) => ps.iter().zip(want.iter()).all(|(p, w)| sdd_tt(*p, nv) == *w && *canon.entry(*w).or_insert(*p) == *p),
+                    Ok(ps) => ps.iter().zip(want.iter()).all(|(p, w)| *canon.entry(*w).or_insert(*p) == *p),
                     Err(_) => false,
                 };
                 if !ok {
@@ -1047,7 +1048,7 @@ fn wide_lift<'a>(b: &'a CompressionSddBuilder<'a>, tts: &[TT], nl: usize, memo: 
     }
     acc
 }
-fn lifted_round<'a>(b: &'a CompressionSddBuilder<'a>, pick: &[&Value], op: &str, nl: usize) -> (Vec<Value>, usize, usize) {
+fn lifted_round<'a>(b: &'a CompressionSddBuilder<'a>, pick: &[&Value], op: &str, nl: usize, canon_mode: bool) -> (Vec<Value>, usize, usize) {
     let mut memo: HashMap<(TT, usize), SddPtr<'a>> = HashMap::new();
     let fs: Vec<TT> = pick.iter().map(|v| tt_of(&v["f"])).collect();
     let gs: Vec<TT> = pick.iter().map(|v| tt_of(&v["g"])).collect();
@@ -1076,19 +1077,151 @@ fn lifted_round<'a>(b: &'a CompressionSddBuilder<'a>, pick: &[&Value], op: &str,
             }
         }
         if let Some(asg) = wrong {
-            bad.push(json!({"what": name, "assignment": asg, "sdd_says": sdd_eval(got, asg)}));
-        } else if wide_lift(b, want, nl, &mut memo) != got {
+            if !canon_mode {
+                bad.push(json!({"what": name, "assignment": asg, "sdd_says": sdd_eval(got, asg)}));
+            }
+        } else if canon_mode && wide_lift(b, want, nl, &mut memo) != got {
             bad.push(json!({"what": name, "same_pointer_as_the_disjunction_built_directly": false}));
         }
     }
     (bad, width(a), width(bb))
 }
 
+/// --check hash (C11): the hash is a function of the denotation also on VERY wide decision nodes. Nine further variables under the left
+/// child of the root (512-element nodes); A, B lifted from 512 TLC-printed vectors of one operation, op(A, B) and its negation: for each,
+/// the cached SDD hash, the fold-based SDD hash and the hash of the same function built as a BDD over the same weight map must coincide,
+/// in the 32-bit and the 64-bit field, and hash(not f) + hash(f) = 1.
+fn sdd_hash_wide(args: &Args, vecs: &[Value]) {
+    use rsdd::builder::sdd::SddBuilder;
+    use rsdd::constants::primes;
+    use rsdd::repr::create_semantic_hash_map;
+    let nr = args.num("nv", 4) as usize; // variables of the printed functions: under the right child
+    let mut rng = Rng::new(args.num("seed", 1) ^ 0x4a5);
+    let mut t = Tally { vectors: vecs.len(), steps: 0, mismatches: 0, bad: vec![] };
+    let nl = 9usize;
+    let n = nl + nr;
+    // 1024 pairwise different printed functions (so that the lifted nodes keep all their elements after compression)
+    let mut distinct: Vec<TT> = vec![];
+    let mut seen = std::collections::HashSet::new();
+    for v in vecs {
+        for k in ["f", "exp"] {
+            let tt = tt_of(&v[k]);
+            if tt != 0 && tt != full(nr) && seen.insert(tt) {
+                distinct.push(tt);
+            }
+        }
+        if distinct.len() >= 1024 {
+            break;
+        }
+    }
+    let mut configs = 0;
+    if distinct.len() >= 1024 {
+        // one field per builder: the per-node cache holds one value, for one field and weight map
+        for round in 0..3usize {
+            configs += 1;
+            let left_labels: Vec<VarLabel> = rng.perm(nl).into_iter().map(|v| VarLabel::new_usize(v + nr)).collect();
+            let right_labels: Vec<VarLabel> = rng.perm(nr).into_iter().map(VarLabel::new_usize).collect();
+            let left = if round % 2 == 0 { VTree::right_linear(&left_labels) } else { VTree::even_split(&left_labels, 1) };
+            let vt = VTree::new_node(Box::new(left), Box::new(VTree::right_linear(&right_labels)));
+            rsdd::verif::set_table_capacity(0);
+            let mut bm = CompressionSddBuilder::new(vt);
+            SddBuilder::set_compression(&mut bm, true);
+            let b = &bm;
+            let bb = RobddBuilder::<AllIteTable<BddPtr>>::new(VarOrder::linear_order(n));
+            t.steps += 1;
+            let fs: Vec<TT> = distinct[..512].to_vec();
+            let gs: Vec<TT> = distinct[512..1024].to_vec();
+            let r = guarded(|| {
+                let mut memo: HashMap<(TT, usize), SddPtr> = HashMap::new();
+                let mut lift = |tts: &[TT]| {
+                    let mut acc = SddPtr::PtrFalse;
+                    for (m, tt) in tts.iter().enumerate() {
+                        let s = sdd_build(b, *tt, 0, nr, &mut memo);
+                        let mut mt = SddPtr::PtrTrue;
+                        for k in 0..nl {
+                            mt = b.and(mt, SddPtr::Var(VarLabel::new_usize(nr + k), (m >> k) & 1 == 1));
+                        }
+                        acc = b.or(acc, b.and(mt, s));
+                    }
+                    acc
+                };
+                let (a, c) = (lift(&fs), lift(&gs));
+                let res = b.and(a, c);
+                let mut bmemo = HashMap::new();
+                let ident: Vec<usize> = (0..nr).collect();
+                let mut blift = |tts: &[TT]| {
+                    let mut acc = BddPtr::PtrFalse;
+                    for (m, tt) in tts.iter().enumerate() {
+                        let mut term = bdd_build(&bb, *tt, 0, &ident, nr, &mut bmemo);
+                        for k in 0..nl {
+                            term = bb.and(term, bb.var(VarLabel::new_usize(nr + k), (m >> k) & 1 == 1));
+                        }
+                        acc = bb.or(acc, term);
+                    }
+                    acc
+                };
+                let (ba, bc) = (blift(&fs), blift(&gs));
+                let bres = bb.and(ba, bc);
+                let mut bad: Vec<Value> = vec![];
+                macro_rules! cmp {
+                    ($P:expr, $name:literal) => {{
+                        let map = create_semantic_hash_map::<{ $P }>(n);
+                        for (what, s, d) in [("A", a, ba), ("B", c, bc), ("and(A, B)", res, bres), ("not A", b.negate(a), bb.negate(ba))] {
+                            let cached = s.cached_semantic_hash(b.vtree_manager(), &map).value();
+                            let fold = s.semantic_hash(&map).value();
+                            let asbdd = d.semantic_hash(&map).value();
+                            if cached != fold || fold != asbdd {
+                                bad.push(json!({"field": $name, "diagram": what, "sdd_cached": cached.to_string(), "sdd_fold": fold.to_string(), "same_function_as_bdd": asbdd.to_string()}));
+                            }
+                        }
+                        let (h, hn) = (a.cached_semantic_hash(b.vtree_manager(), &map).value(), b.negate(a).cached_semantic_hash(b.vtree_manager(), &map).value());
+                        if (h + hn) % $P != 1 {
+                            bad.push(json!({"field": $name, "hash_plus_hash_of_negation": ((h + hn) % $P).to_string()}));
+                        }
+                    }};
+                }
+                if round < 2 {
+                    cmp!(primes::U32_SMALL, "U32_SMALL");
+                } else {
+                    cmp!(primes::U64_LARGEST, "U64_LARGEST");
+                }
+                let width = |p: SddPtr| if p.is_const() || p.is_var() { 0 } else { (if p.is_neg() { p.neg() } else { p }).node_iter().count() };
+                (bad, width(a), width(res))
+            });
+            match r {
+                Ok((bad, wa, wr)) => {
+                    if !bad.is_empty() {
+                        t.mismatches += 1;
+                        if t.bad.len() < 10 {
+                            t.bad.push(json!({"cfg": format!("hashes of lifted wide SDDs ({wa} / {wr} elements at the root), round {round}"), "bad": bad}));
+                        }
+                    } else if wa < 400 {
+                        t.bad.push(json!({"note": format!("round {round}: the lifted node has only {wa} elements")}));
+                    }
+                }
+                Err(m) => {
+                    t.mismatches += 1;
+                    t.bad.push(json!({"cfg": format!("hashes of lifted wide SDDs, round {round}"), "panic": m}));
+                }
+            }
+        }
+    }
+    rsdd::verif::set_table_capacity(0);
+    println!("{}", json!({"vectors": t.vectors, "steps": t.steps, "configs": configs, "mismatches": t.mismatches, "bad": t.bad}));
+}
+
 pub fn replay_sddvec(args: &Args) {
     let text = std::fs::read_to_string(args.str("in", "")).expect("read vectors");
+    if args.str("check", "fn") == "hash" {
+        let vecs: Vec<Value> = text.lines().map(|l| serde_json::from_str(l).unwrap()).collect();
+        return sdd_hash_wide(args, &vecs);
+    }
     let nv = args.num("nv", 3) as usize;
     let seed = args.num("seed", 1);
     let max_cfg = args.num("configs", 12) as usize;
+    // --check fn (default): the returned SDD denotes what TLC printed (C03); --check canon: two results of one compressing builder
+    // that denote the same function are the same pointer (C04) - judged on the function a result actually denotes
+    let canon_mode = args.str("check", "fn") == "canon";
     let vecs: Vec<Value> = text.lines().map(|l| serde_json::from_str(l).unwrap()).collect();
     let mut rng = Rng::new(seed ^ 0x5ddc);
     let mut vtrees: Vec<VTree> = vec![];
@@ -1126,8 +1259,9 @@ pub fn replay_sddvec(args: &Args) {
     // (two of them congruent modulo 64, some beyond 63); every third vector
     let mut wide: Vec<(VTree, Vec<usize>)> = vec![];
     if nv >= 2 {
-        let nlabels = 70usize;
-        for kind in 0..3 {
+        for kind in 0..4 {
+            // kind 3: a right-linear vtree over 160 labels (in-order node indices up to 318), the variables at the deep end
+            let nlabels = if kind == 3 { 160usize } else { 70 };
             let base = rng.below(6);
             let mut emb: Vec<usize> = vec![base, base + 64];
             while emb.len() < nv {
@@ -1140,7 +1274,7 @@ pub fn replay_sddvec(args: &Args) {
                 emb.swap(k, rng.below(k + 1));
             }
             let mut lab = rng.perm(nlabels);
-            if kind < 2 {
+            if kind < 2 || kind == 3 {
                 // on a spine the function's variables go to the DEEP end (depths 60 .. 69: beyond the width of a machine word)
                 lab.retain(|l| !emb.contains(l));
                 let at = lab.len() - rng.below(3);
@@ -1157,7 +1291,7 @@ pub fn replay_sddvec(args: &Args) {
             }
             let labels: Vec<VarLabel> = lab.iter().map(|v| VarLabel::new_usize(*v)).collect();
             let vt = match kind {
-                0 => VTree::right_linear(&labels),
+                0 | 3 => VTree::right_linear(&labels),
                 1 => VTree::left_linear(&labels),
                 _ => rand_vtree(&mut rng, &lab),
             };
@@ -1213,7 +1347,7 @@ pub fn replay_sddvec(args: &Args) {
                 let (ok, got) = match r.and_then(|p| guarded(|| (p, sdd_tt_emb(p, nv, &emb)))) {
                     Ok((p, got)) => {
                         let c = *canon.entry(got).or_insert(p);
-                        (got == exp && (!compress || c == p), json!(got))
+                        (if canon_mode { !compress || c == p } else { got == exp }, json!(got))
                     }
                     Err(m) => (false, json!(m)),
                 };
@@ -1251,7 +1385,7 @@ pub fn replay_sddvec(args: &Args) {
             SddBuilder::set_compression(&mut bm, true);
             let b = &bm;
             t.steps += 1;
-            let r = guarded(|| lifted_round(b, &pick, op, nl));
+            let r = guarded(|| lifted_round(b, &pick, op, nl, canon_mode));
             match r {
                 Ok((bad, wa, wb)) => {
                     if !bad.is_empty() {
